@@ -733,6 +733,8 @@ func runC10(p *Program, r *Report) {
 	c10closes(p, r, "C10.closes")
 	// after a message was read to its end, its handle no longer waits on anything under that message's context (F37)
 	cReaderHandle(p, r, "C10.rhandle")
+	// … and the handle of a finished writer refuses before it waits on anything under the finished write's context (seed C10-R)
+	cWriterHandle(p, r, "C10.handle")
 	if fn := p.Func("Conn.reader"); fn != nil {
 		p.forAllPaths(r, "C10.rhandle", fn, "a handle per call", Opts{}, "Conn.reader returns a value created by this call (carrying its own end-of-message mark), not the connection's shared msgReader", func(pa *Path) (bool, string) {
 			if pa.End != "return" || retErr(pa) != "nil" {
